@@ -634,6 +634,37 @@ var differs = []differ{
 		m.Adjustments[0].With[rapid.SampledFrom(ks).Draw(t, "withkey")] += "!"
 		return true
 	}},
+	{"matrix-extra-key-change", func(t *rapid.T, w *world) bool {
+		// a key of the matrix itself, next to setup / adjustments or next to a plain value list
+		m := w.Step.Matrix
+		if m == nil {
+			return false
+		}
+		if _, has := m.RemainingFields["extra"]; has && rapid.Bool().Draw(t, "dropextra") {
+			delete(m.RemainingFields, "extra")
+			if len(m.RemainingFields) == 0 && rapid.Bool().Draw(t, "niltoo") {
+				m.RemainingFields = nil
+			}
+			return true
+		}
+		if m.RemainingFields == nil {
+			m.RemainingFields = map[string]any{}
+		}
+		m.RemainingFields["extra"] = "changed\x00"
+		return true
+	}},
+	{"adjustment-extra-key-change", func(t *rapid.T, w *world) bool {
+		m := w.Step.Matrix
+		if m == nil || len(m.Adjustments) == 0 {
+			return false
+		}
+		a := m.Adjustments[rapid.IntRange(0, len(m.Adjustments)-1).Draw(t, "whichadj")]
+		if a.RemainingFields == nil {
+			a.RemainingFields = map[string]any{}
+		}
+		a.RemainingFields["soft_fail"] = "changed\x00"
+		return true
+	}},
 	{"int-to-string-in-config", func(t *rapid.T, w *world) bool {
 		// 1 and "1" are different content
 		for _, p := range w.Step.Plugins {
